@@ -198,10 +198,13 @@ func (x *Exec) externDefault(fr *Frame, st *State, fn *ssa.Function, args []Valu
 	}
 	switch {
 	case strings.HasPrefix(pk, "github.com/go-openapi/spec"), strings.HasPrefix(pk, "github.com/go-openapi/analysis"),
-		strings.HasPrefix(pk, "github.com/go-openapi/loads"), strings.HasPrefix(pk, "github.com/go-openapi/jsonpointer"),
-		strings.HasPrefix(pk, "encoding/"):
-		// may write through its pointer arguments: conservative havoc of everything
-		x.havocAll(st)
+		strings.HasPrefix(pk, "github.com/go-openapi/loads"), strings.HasPrefix(pk, "github.com/go-openapi/jsonpointer"), strings.HasPrefix(pk, "encoding/"):
+		// may write through its pointer arguments: conservative havoc of everything it can reach. These packages are
+		// imported by the package under verification, so (no import cycles) they cannot name its types, and no object
+		// of such a type is handed to them: the fields of this package's struct types are kept (assumption recorded
+		// in the evidence: no unsafe, no reflection on and no call-back into this package's objects).
+		x.assumedExtern["frame:go-openapi-spec/analysis/loads/jsonpointer-and-encoding/*-do-not-write-fields-of-this-package's-structs"]++
+		x.havocAllKeeping(st, ownStructFieldHeap)
 	default:
 		// stdlib helpers and value-only libraries: no caller-visible writes
 	}
@@ -445,6 +448,8 @@ func (x *Exec) applyContract(fr *Frame, st *State, fn *ssa.Function, con *Contra
 		for _, m := range con.Modifies {
 			x.havocLvalue(env, st, m)
 		}
+	} else if con.ModAll && len(con.Preserves) > 0 {
+		x.havocAllKeeping(st, preservesKeep(con))
 	} else if con.ModAll || (!con.HasModifies && !con.Extern && len(con.Ensures) == 0) {
 		x.havocAll(st)
 	} else {
